@@ -1,4 +1,5 @@
 import SaModel.Lemmas.C08NotWalkable
+import SaModel.Lemmas.C16FromType
 /-
 C16, `from_type`: no panic (corollary of C08's `fromType_spec`) and the depth limit for EVERY container family.
 
@@ -22,6 +23,34 @@ theorem Agree.isPanic_false {α} {a b : R α} (h : Agree a b) : a.isPanic = fals
 /-- `SerdeArrowSchema::from_type` never unwinds: for every type description and all options -/
 theorem fromType_np (c : Code) (o : Options) (ty : Ty) : (fromType c o ty).isPanic = false :=
   Agree.isPanic_false (fromType_spec c o ty)
+
+/-! ### every pass of the loop: `explore` on the states `from_type` reaches
+
+`Conf o p ty t` (C08, SaModel/Lemmas/C08Conf.lean) is the invariant "the tracer `t` was grown by `explore` from this very
+type at path `p`": a fresh node conforms to everything; a list / map / tuple / struct / union node conforms to the
+corresponding type if it sits at a path within the depth limit and its children conform pointwise (a struct node has a
+slot per declared field, a union node has no unseen slot). -/
+
+theorem Pres.isPanic_false {α} {r : R α} {P : α → Prop} (h : Pres r P) : r.isPanic = false := by
+  match r, h with
+  | .ok _, _ => rfl
+  | .error (.err _), _ => rfl
+
+/-- one pass over a conforming tracer never unwinds -/
+theorem explore_np (c : Code) (o : Options) (ty : Ty) (p : String) (t : Tracer) (h : Conf o p ty t) :
+    (explore c o t ty).isPanic = false := Pres.isPanic_false (explore_conf c o ty p t h)
+
+/-- any number of passes (also beyond completion, also past the budget) keeps conformance or ends in a Rust error -/
+theorem passes_conf (c : Code) (o : Options) (ty : Ty) (p : String) : ∀ (k : Nat) (t : Tracer), Conf o p ty t →
+    Pres (passes c o ty k t) (Conf o p ty)
+  | 0, _, h => Pres.ok h
+  | k + 1, t, h => by
+    simp only [passes]
+    exact Pres.bind (explore_conf c o ty p t h) fun t' h' => passes_conf c o ty p k t' h'
+
+theorem passes_np (c : Code) (o : Options) (ty : Ty) (k : Nat) (n p : String) (nl : Bool) :
+    (passes c o ty k (.unknown n p nl)).isPanic = false :=
+  Pres.isPanic_false (passes_conf c o ty p k _ (conf_fresh o ty n p nl))
 
 /-! ### which type constructors descend -/
 
@@ -175,5 +204,10 @@ theorem fromType_recursive_err (c : Code) (o : Options) (F : Ty → Ty) (hF : De
     (hn : MAX_TYPE_DEPTH < n) : (fromType c o (unroll F n base)).isErr = true := by
   obtain ⟨m, h⟩ := fromType_not_walkable c o _ (unroll_not_walkable o F hF base n hn)
   rw [h]; rfl
+
+/-- the `Vec<Vec<…>>` family of `explore_deep_vec` is the unrolling of `Vec` -/
+theorem nestVec_eq_unroll (ty : Ty) : ∀ k, nestVec k ty = unroll (fun t => .vec t) k ty
+  | 0 => rfl
+  | k + 1 => by simp only [nestVec, unroll, nestVec_eq_unroll ty k]
 
 end SaModel.Lemmas.C16
